@@ -262,7 +262,8 @@ func (b *Builder) TFlag(t types.Type) (flag abi.TFlag) {
 	case *types.Basic:
 		flag |= abi.TFlagNamed
 	case *types.Named:
-		return b.TFlag(t.Underlying()) | abi.TFlagNamed
+		// TFlagExtraStar belongs to unnamed pointer types: type P *T prints as P.
+		return (b.TFlag(t.Underlying()) &^ abi.TFlagExtraStar) | abi.TFlagNamed
 	case *types.Struct:
 		if IsClosure(t) {
 			flag |= abi.TFlagClosure
